@@ -413,7 +413,9 @@ Lemma set_relation_table_seg w live src st rid target w' sg :
   exists dt' pre, w_tables w' !! s_tid sg = Some dt' /\ t_ents dt' = pre ++ t_ents st /\
     s_start sg = length pre /\ s_end sg = length pre + tlen st /\ s_skip sg = false /\ s_tid sg <> src /\
     t_target dt' = target /\ t_target st <> target /\
-    (forall t, w_tables w !! s_tid sg = Some t -> t_ents t <> [] -> t_target t = target /\ pre = t_ents t).
+    (forall t, w_tables w !! s_tid sg = Some t -> t_ents t <> [] -> t_target t = target /\ pre = t_ents t /\ t_node t = t_node st) /\
+    t_node dt' = t_node st /\
+    exists sn, w_nodes w !! t_node st = Some sn /\ n_rel sn = Some rid /\ s_old sg = Some (n_mask sn, n_rel sn, t_target st).
 Proof.
   intros [S G] C Hst Hstne H.
   unfold set_relation_table in H. rewrite Hst in H.
@@ -448,7 +450,7 @@ Proof.
   { unfold node_capinc. destruct (rg_capinc _ G1). by destruct (node_has_rel dn). }
   pose proof (move_all_ok w1 live src dst (n_mask sn) st dt dn dn S1 Hsd Hst1 Hdt Hdn Hdn' Hcap) as HM.
   destruct (move_all w1 src dst (n_mask sn)) as [w2 start]. simpl in HM.
-  destruct HM as (_ & _ & _ & _ & _ & _ & _ & _ & _ & _ & _ & (dt2 & Hdt2' & Hdt2e & _ & Hdt2t & _) & Hstartv).
+  destruct HM as (_ & _ & _ & _ & _ & _ & _ & _ & _ & _ & _ & (dt2 & Hdt2' & Hdt2e & Hdt2n & Hdt2t & _) & Hstartv).
   set (w3 := set_tbit w2 target) in *.
   assert (Ht3 : w_tables w3 = w_tables w2) by (unfold w3, set_tbit; by destruct (ent_is_zero target)).
   assert (Hoth4 : forall tid, tid <> src -> w_tables (cleanup_table w3 src) !! tid = w_tables w3 !! tid).
@@ -458,11 +460,13 @@ Proof.
     simpl. by rewrite list_lookup_insert_ne. }
   assert (Hfin : w_tables (cleanup_table w3 src) !! dst = Some dt2) by (rewrite Hoth4 by done; by rewrite Ht3).
   rewrite Hfin in H. injection H as <- <-.
-  exists dt2, (t_ents dt). cbn [s_tid s_start s_end s_skip].
+  exists dt2, (t_ents dt). cbn [s_tid s_start s_end s_skip s_old].
   split; [done|]. split; [done|]. rewrite Hstartv. unfold tlen. split; [done|]. split; [by rewrite Hdt2e, app_length|].
   split; [done|]. split; [done|]. split; [congruence|]. split; [done|].
-  intros t Ht Hne. destruct (xr_tables _ _ E dst t Ht) as (t' & Ht' & _ & _ & _ & _ & Q).
-  rewrite Hdt in Ht'. injection Ht' as <-. rewrite (Q Hne) in *. done.
+  split.
+  { intros t Ht Hne. destruct (xr_tables _ _ E dst t Ht) as (t' & Ht' & _ & _ & _ & _ & Q).
+    rewrite Hdt in Ht'. injection Ht' as <-. rewrite (Q Hne) in *. done. }
+  split; [congruence|]. exists sn. by rewrite Hrel.
 Qed.
 
 Definition moved_b (T : Entity) (w : world) (tid : nat) : bool :=
@@ -475,7 +479,10 @@ Lemma srloop_segs live rid T : forall l w segs0 pr w' segs,
   (forall tid, tid ∈ l -> tbl_ents w tid <> []) ->
   srloop rid T w l segs0 pr = inl (Some (w', segs)) ->
   exists new, segs = segs0 ++ new /\ flat_map (seg_ents w') new = table_ents w (retargeted T w l) /\
-    Forall (fun s => s_skip s = false /\ s_start s < s_end s /\ s_end s <= length (tbl_ents w' (s_tid s))) new /\
+    Forall (fun s => s_skip s = false /\ s_start s < s_end s /\ s_end s <= length (tbl_ents w' (s_tid s)) /\
+                     exists om orl ot, s_old s = Some (om, orl, ot) /\ ot <> T /\
+                       forall e, e ∈ seg_ents w' s ->
+                         e ∈ live /\ ent_mask w e = Some om /\ ent_rel w e = Some orl /\ ent_target w e = Some ot) new /\
     (forall tid0 t0, w_tables w !! tid0 = Some t0 -> t_ents t0 <> [] -> (tid0 ∉ l \/ t_target t0 = T) ->
        exists t0', w_tables w' !! tid0 = Some t0' /\ t_ents t0 `prefix_of` t_ents t0' /\ t_target t0' = t_target t0).
 Proof.
@@ -495,13 +502,13 @@ Proof.
     destruct (set_relation_table_rok w live tid st rid T w1 s K C Hst Htne Hx)
       as (sn & dst & Hsn & Hrel & Htgne & Hsd & K1 & C1 & F1 & Hp1 & Hil1 & HN1 & Hoth1 & Hmoved1 & Htab1 & Hdst1).
     destruct (set_relation_table_seg w live tid st rid T w1 s K C Hst Htne Hx)
-      as (dt' & pre & Hdt' & Hdte & Hss & Hse & Hsk & Hsne & Hdtt & _ & Hdstw).
+      as (dt' & pre & Hdt' & Hdte & Hss & Hse & Hsk & Hsne & Hdtt & _ & Hdstw & _ & sn0 & Hsn0 & _ & Hsold).
     (* what the first step does to any non-empty table of w other than the source *)
     assert (Hstep : forall tid0 t0, tid0 <> tid -> w_tables w !! tid0 = Some t0 -> t_ents t0 <> [] ->
               exists t1, w_tables w1 !! tid0 = Some t1 /\ t_ents t0 `prefix_of` t_ents t1 /\
                 ((tid0 <> s_tid s /\ t1 = t0) \/ (tid0 = s_tid s /\ t_target t0 = T /\ t_target t1 = T /\ t_ents t1 = t_ents t0 ++ t_ents st))).
     { intros tid0 t0 Hne0 Ht0 Hnn. destruct (decide (tid0 = s_tid s)) as [->|Hd].
-      - destruct (Hdstw t0 Ht0 Hnn) as [Htt ->]. exists dt'. split; [done|]. split; [rewrite Hdte; by apply prefix_app_r|].
+      - destruct (Hdstw t0 Ht0 Hnn) as (Htt & -> & _). exists dt'. split; [done|]. split; [rewrite Hdte; by apply prefix_app_r|].
         right. done.
       - (* not the segment's table: is it the destination named by the other lemma? *)
         destruct (decide (tid0 = dst)) as [->|Hdd].
@@ -524,25 +531,27 @@ Proof.
     (* the segment's table holds the moved entities at the end *)
     assert (Hne_dt : t_ents dt' <> []) by (rewrite Hdte; intros Hx'; apply app_eq_nil in Hx' as [_ ?]; done).
     destruct (Hpre (s_tid s) dt' Hdt' Hne_dt (or_intror Hdtt)) as (dt'' & Hdt'' & Hpfx & _).
+    assert (Hsegents : seg_ents w' s = t_ents st).
+    { unfold seg_ents. rewrite Hsk, Hss, Hse. rewrite (tbl_ents_ne _ _ _ Hdt'').
+      destruct Hpfx as [ext Hext]. rewrite Hext, Hdte, <- app_assoc.
+      rewrite drop_app_alt by done. replace (length pre + tlen st - length pre) with (length (t_ents st)) by (unfold tlen; lia).
+      by rewrite take_app. }
+    (* the remaining re-targeted tables and their entities are those of w *)
+    assert (Hsame : forall tid', tid' ∈ r ->
+              moved_b T w1 tid' = moved_b T w tid' /\ (moved_b T w tid' = true -> tbl_ents w1 tid' = tbl_ents w tid')).
+    { intros tid' Hin. assert (tid' <> tid) by (intros ->; done).
+      pose proof (Hne tid' (elem_of_list_further _ _ _ Hin)) as Hn'. unfold moved_b, tbl_ents in Hn' |- *.
+      destruct (w_tables w !! tid') as [t|] eqn:Ht; [|done].
+      destruct (Hstep tid' t H0 Ht Hn') as (t1 & -> & _ & [[_ ->]|(_ & Ht0 & Ht1 & _)]); [done|].
+      rewrite Ht0, Ht1, ent_eqb_refl. done. }
     exists (s :: new). split; [by rewrite <- app_assoc|]. split.
     + (* entities *)
       assert (Hret : retargeted T w (tid :: r) = tid :: retargeted T w r).
       { unfold retargeted. rewrite filter_cons. rewrite decide_True; [done|]. unfold moved_b. rewrite Hst.
         apply negb_true_iff. by apply ent_eqb_neq. }
       rewrite Hret. cbn [flat_map table_ents]. f_equal.
-      * unfold seg_ents. rewrite Hsk, Hss, Hse. rewrite (tbl_ents_ne _ _ _ Hdt''), (tbl_ents_ne _ _ _ Hst).
-        destruct Hpfx as [ext Hext]. rewrite Hext, Hdte, <- app_assoc.
-        rewrite drop_app_alt by done. replace (length pre + tlen st - length pre) with (length (t_ents st)) by (unfold tlen; lia).
-        by rewrite take_app.
+      * by rewrite Hsegents, (tbl_ents_ne _ _ _ Hst).
       * rewrite Hflat.
-        (* the remaining re-targeted tables and their entities are those of w *)
-        assert (Hsame : forall tid', tid' ∈ r ->
-                  moved_b T w1 tid' = moved_b T w tid' /\ (moved_b T w tid' = true -> tbl_ents w1 tid' = tbl_ents w tid')).
-        { intros tid' Hin. assert (tid' <> tid) by (intros ->; done).
-          pose proof (Hne tid' (elem_of_list_further _ _ _ Hin)) as Hn'. unfold moved_b, tbl_ents in Hn' |- *.
-          destruct (w_tables w !! tid') as [t|] eqn:Ht; [|done].
-          destruct (Hstep tid' t H0 Ht Hn') as (t1 & -> & _ & [[_ ->]|(_ & Ht0 & Ht1 & _)]); [done|].
-          rewrite Ht0, Ht1, ent_eqb_refl. done. }
         unfold table_ents, retargeted. clear -Hsame. induction r as [|x l IHl]; [done|].
         assert (Hx := Hsame x (elem_of_list_here _ _)).
         assert (Hl : forall tid', tid' ∈ l -> moved_b T w1 tid' = moved_b T w tid' /\ (moved_b T w tid' = true -> tbl_ents w1 tid' = tbl_ents w tid'))
@@ -551,9 +560,30 @@ Proof.
         destruct (decide (moved_b T w x = true)) as [D1|D1]; [|exact IHl].
         simpl. rewrite IHl. f_equal. by apply Hents.
     + split.
-      * constructor; [|done]. split; [done|]. rewrite Hss, Hse, (tbl_ents_ne _ _ _ Hdt'').
-        destruct Hpfx as [ext Hext]. rewrite Hext, Hdte, !app_length. unfold tlen in *. split; [|lia].
-        destruct (t_ents st); [done|simpl; lia].
+      * constructor.
+        { split; [done|]. rewrite Hss, Hse, (tbl_ents_ne _ _ _ Hdt'').
+          destruct Hpfx as [ext Hext]. rewrite Hext, Hdte, !app_length. unfold tlen in *. split; [|split; [lia|]].
+          { destruct (t_ents st); [done|simpl; lia]. }
+          exists (n_mask sn0), (n_rel sn0), (t_target st). split; [done|]. split; [done|].
+          intros e He. rewrite Hsegents in He. apply elem_of_list_lookup in He as [i Hi].
+          destruct (so_rows _ _ (wr_store _ _ K) tid st i e Hst Hi) as [Hlive Hloc]. split; [done|].
+          apply (views_of_row w live e tid i st sn0 (wr_store _ _ K) Hlive Hloc Hst Hsn0). }
+        eapply Forall_impl_mem; [exact Hall|]. intros s0 Hs0 (A1 & A2 & A3 & om & orl & ot & B1 & Bne & B2).
+        split; [done|]. split; [done|]. split; [done|]. exists om, orl, ot. split; [done|]. split; [done|].
+        intros e He. destruct (B2 e He) as (Hlive & V1 & V2 & V3).
+        assert (Hin_flat : e ∈ flat_map (seg_ents w') new) by (apply elem_of_list_In, in_flat_map; exists s0; split; apply elem_of_list_In; done).
+        rewrite Hflat in Hin_flat. unfold table_ents in Hin_flat. apply elem_of_list_In, in_flat_map in Hin_flat as (tid' & Hin' & Hmem).
+        apply elem_of_list_In in Hin', Hmem. unfold retargeted in Hin'. apply elem_of_list_filter in Hin' as [Hmv Hin'].
+        destruct (Hsame tid' Hin') as [Hmb Hents]. rewrite Hmb in Hmv. rewrite (Hents Hmv) in Hmem.
+        assert (Hnst : e ∉ t_ents st).
+        { assert (tid' <> tid) by (intros ->; done).
+          unfold tbl_ents in Hmem. destruct (w_tables w !! tid') as [t|] eqn:Ht; [|by apply elem_of_nil in Hmem].
+          apply elem_of_list_lookup in Hmem as [row Hrow]. destruct (so_rows _ _ (wr_store _ _ K) tid' t row e Ht Hrow) as [_ Hloc].
+          intros Hm. apply elem_of_list_lookup in Hm as [i Hi].
+          destruct (so_rows _ _ (wr_store _ _ K) tid st i e Hst Hi) as [_ Hloc2]. rewrite Hloc in Hloc2. injection Hloc2 as -> _. done. }
+        assert (Hc1 : ent_cells w1 e = ent_cells w e) by (by apply Hoth1).
+        destruct (views_same w w1 live e (wr_store _ _ K) Hlive HN1 Hc1) as (X1 & X2 & X3 & _).
+        split; [done|]. split; [congruence|]. split; congruence.
       * intros tid0 t0 Ht0 Hnn Hcond.
         assert (Hne0 : tid0 <> tid).
         { intros ->. rewrite Hst in Ht0. injection Ht0 as <-. destruct Hcond as [Hc|Hc]; [apply Hc, elem_of_list_here|done]. }
@@ -622,7 +652,7 @@ Proof.
   split; [done|]. split; [done|]. repeat (split; [done|]).
   set (segs' := map (fun s => mkSeg (s_tid s) (s_start s) (s_end s) (table_skip w1 (s_tid s)) (s_old s)) segs).
   assert (Hsame : segs' = segs).
-  { unfold segs'. clear -Hall. induction Hall as [|s r (Hsk & Hlt & Hle) _ IH]; [done|]. simpl. rewrite IH. f_equal.
+  { unfold segs'. clear -Hall. induction Hall as [|s r (Hsk & Hlt & Hle & _) _ IH]; [done|]. simpl. rewrite IH. f_equal.
     assert (table_skip w1 (s_tid s) = false) as ->.
     { unfold table_skip, tbl_ents in *. destruct (w_tables w1 !! s_tid s) as [t|]; [|simpl in Hle; lia].
       apply Nat.eqb_neq. unfold tlen. lia. }
@@ -631,5 +661,5 @@ Proof.
   match goal with |- omap (pos_ent ?x) _ = _ => change (pos_ent x) with (pos_ent w1) end.
   cbn [q_segs]. rewrite enum_ents.
   - rewrite Hflat. apply table_ents_retargeted_nonempty.
-  - eapply Forall_impl; [exact Hall|]. intros s (_ & H1 & H2). split; [lia|done].
+  - eapply Forall_impl; [exact Hall|]. intros s (_ & H1 & H2 & _). split; [lia|done].
 Qed.
